@@ -378,6 +378,7 @@ func run(t *rapid.T, r *rec.Recorder) {
 	acts["ackAttempt2"] = m.Wrap(c.ackAttempt)
 	acts["ackAttempt3"] = m.Wrap(c.ackAttempt)
 	acts["ackUnreceived"] = m.Wrap(c.ackUnreceived)
+	acts["limit"] = m.Wrap(m.ActLimit)
 	acts[""] = func(t *rapid.T) { m.T = t; c.check() }
 	t.Repeat(acts)
 	var shape []string
